@@ -15,6 +15,7 @@ def run(tier):
     recs += M.gen_pairs(ctx, 3, 2, 4, "Gen_Schema_32_ws2", laye=3, layv=2)
     recs += M.gen_pairs(ctx, 2, 2, 4, "Gen_Schema_widearr", smode="widearr")      # top-level arrays of 15..70 elements
     recs += M.gen_pairs(ctx, 2, 2, 4, "Gen_Schema_wide3", smode="wide3", laye=0 if q else 1)
+    recs += M.gen_pairs(ctx, 2, 2, 4, "Gen_Schema_nest2", smode="nest2")
     rows = [[str(i), hexs(r["e"]), hexs(r["v"]), T.canon(r["lazy"])] for i, r in enumerate(recs)]
     fails = M.run_merge(ctx, "lazy", rows, builds, None, "")
     for b, idx, kind, detail in fails:
